@@ -1,6 +1,7 @@
 import RPVerif.Lemmas.TmgrSched
 import RPVerif.Lemmas.RRBalance
 import RPVerif.Lemmas.BFUsage
+import RPVerif.Lemmas.BFConserve
 
 /-!
 # C12 — Each task is bound to exactly one eligible pilot
@@ -243,5 +244,24 @@ theorem C12_bf_usage (cf : Nat → Nat) (c : BFCfg) (execVal : Nat) (ops : List 
   have hinit : BFInv cf ({} : S) := ⟨(fun q hq => by cases hq), (fun t ht => by cases ht)⟩
   have h := (bfRun_inv cf c execVal ops hops {} hinit).pilots p hp
   exact ⟨h.used, h.nodup, h.sub, fun hn hall => usedInv_zero cf p h hn hall⟩
+
+/-- **conservation (backfilling)**: over any history of callbacks (pilots added with any sizes, removed,
+    state notifications in any order, submissions, task state notifications), a uid that is held or
+    submitted at most once is forwarded once or still held once: (times forwarded) + (times in the wait
+    pool or the early-binding list) = (times held initially) + (times submitted).  The wait pool of
+    Backfilling is a dict keyed by uid, hence the uniqueness hypothesis (per uid). -/
+theorem C12_bf_conservation (c : BFCfg) (execVal : Nat) (ops : List Op) (s : S) (a : Nat)
+    (hu : count a (held s) + count a (allNew ops) ≤ 1) :
+    count a (fwdUids (bfRun c execVal s ops).2) + count a (held (bfRun c execVal s ops).1)
+      = count a (held s) + count a (allNew ops) :=
+  bfRun_conserve c execVal ops a s hu
+
+/-- **forwarded at most once, never lost (backfilling)** -/
+theorem C12_bf_once (c : BFCfg) (execVal : Nat) (ops : List Op) (s : S) (a : Nat)
+    (hu : count a (held s) + count a (allNew ops) = 1) :
+    (count a (fwdUids (bfRun c execVal s ops).2) = 1 ∧ count a (held (bfRun c execVal s ops).1) = 0)
+    ∨ (count a (fwdUids (bfRun c execVal s ops).2) = 0 ∧ count a (held (bfRun c execVal s ops).1) = 1) := by
+  have := C12_bf_conservation c execVal ops s a (by omega)
+  omega
 
 end RPVerif.C12
